@@ -1,4 +1,5 @@
 import CacheProofs.Lemmas.Janitor
+import CacheModel.Construct
 
 /-
   C11 — the janitor deletes only entries expired longer than DeleteExpiredAfter.
@@ -271,6 +272,14 @@ theorem C11_scan_skip_sound (kind : Kind) (cfg : Cfg) (hk : KindOK hash kind) (h
 
 theorem scanInv_empty (cfg : Cfg) : ScanInv hash cfg Store.empty :=
   ⟨by simp [Store.empty], fun _ k e he => by simp at he⟩
+
+/-- **C11_default_backend_config_unaltered** — the backend a Failover / FailoverOf creates when none is given is configured
+    with `BackendConfig` as the user wrote it (whatever the failover's own settings, e.g. MaxStaleness): in particular its
+    janitor works with the user's DeleteExpiredAfter, so `C11_cycle_exactly` speaks about it with that value. -/
+theorem C11_default_backend_config_unaltered (v : Variant) (backendConfig altered : Cfg) :
+    defaultBackendCfg v backendConfig altered = backendConfig ∧
+    (defaultBackendCfg v backendConfig altered).deleteExpiredAfter = backendConfig.deleteExpiredAfter := by
+  cases v <;> simp [defaultBackendCfg, backendCfgPassthrough, Gen.backendCfgPassthrough, Gen.backendCfgPassthroughOf]
 
 /-! ### Non-vacuity: an Unlimited cache holding a never-expiring, a fresh, a recently and a long expired entry -/
 example :
